@@ -32,12 +32,17 @@ var c20P2Sizes = []int{11, 6}
 var c20P1Sizes = []int{7, 5, 3}
 
 func c20Gen(g *core.Gen) {
-	states := []string{"intact", "deleted", "shifted", "appended", "shifted+deleted", "unrepairable", "noparity-intact", "noparity-damaged", "noparity-shifted", "oneblock-shifted", "badindex", "noindex"}
+	states := []string{"intact", "deleted", "shifted", "appended", "shifted+deleted", "unrepairable", "noparity-intact", "noparity-damaged", "noparity-shifted", "oneblock-shifted", "badindex", "noindex",
+		// histories: the set was created before with more recovery blocks (stale but valid volumes remain, blocks exist twice); a volume was copied
+		"recreated-intact", "recreated-deleted", "recreated-shifted+deleted", "recreated-unrepairable", "dupvol-intact", "dupvol-deleted"}
 	cwds := []string{"set", "parent", "unrelated"}
 	for _, f := range []string{"p2", "p1"} {
 		verifyCmds := [][]string{{"verify", "{PAR}"}, {"v", "{PAR}"}, {"VERIFY", "{PAR}"}, {"-g", "2", "verify", "{PAR}"}, {"verify", "-a", "{PAR}"}}
 		repairCmds := [][]string{{"repair", "{PAR}"}, {"r", "{PAR}"}, {"Repair", "{PAR}"}, {"repair", "-doublecheck", "{PAR}"}, {"-g", "3", "r", "-doublecheck=true", "{PAR}"}}
 		for _, st := range states {
+			if f == "p1" && strings.HasPrefix(st, "dupvol") {
+				continue // a PAR1 volume's number is part of its name: a copy under another name is a different scenario (C19)
+			}
 			for _, cw := range cwds {
 				for _, c := range verifyCmds {
 					g.Emit(&c20Case{Fmt: f, Cmd: c, Class: "verify", State: st, Cwd: cw})
@@ -106,6 +111,18 @@ func c20Run(ci interface{}, r *core.Rec) {
 	index := filepath.Join(setDir, "s"+ext)
 	if c.Class != "create" {
 		var err error
+		if strings.HasPrefix(c.State, "recreated") {
+			// an earlier run protected the same files with more recovery blocks; its extra volumes stay behind
+			if c.Fmt == "p2" {
+				err = par2.Create(index, paths, par2.CreateOptions{SliceByteCount: 4, NumParityShards: 5, NumGoroutines: 1})
+			} else {
+				err = par1.Create(index, paths, par1.CreateOptions{NumParityFiles: 4})
+			}
+			if err != nil {
+				r.Violatef("setup-create-failed:"+errClass(err), "%v", err)
+				return
+			}
+		}
 		if c.Fmt == "p2" {
 			err = par2.Create(index, paths, par2.CreateOptions{SliceByteCount: 4, NumParityShards: 3, NumGoroutines: 1})
 		} else {
@@ -145,8 +162,14 @@ func c20Run(ci interface{}, r *core.Rec) {
 	if blockedPath != "" {
 		os.MkdirAll(filepath.Join(blockedPath, "occupied"), 0755)
 	}
+	if strings.HasPrefix(c.State, "dupvol") {
+		for i, p := range recFiles() {
+			b, _ := ioutil.ReadFile(p)
+			ioutil.WriteFile(filepath.Join(setDir, fmt.Sprintf("s.copy%d.par2", i)), b, 0644)
+		}
+	}
 	switch c.State {
-	case "deleted":
+	case "deleted", "recreated-deleted", "dupvol-deleted":
 		os.Remove(paths[1])
 	case "shifted":
 		if c.Fmt == "p2" {
@@ -158,7 +181,7 @@ func c20Run(ci interface{}, r *core.Rec) {
 		}
 	case "appended":
 		ioutil.WriteFile(paths[0], append(append([]byte{}, datas[0]...), 0xC3, 0xC4), 0644)
-	case "shifted+deleted":
+	case "shifted+deleted", "recreated-shifted+deleted":
 		os.Remove(paths[1])
 		if c.Fmt == "p2" {
 			ioutil.WriteFile(paths[0], append([]byte{0xEE}, datas[0]...), 0644)
@@ -173,7 +196,7 @@ func c20Run(ci interface{}, r *core.Rec) {
 			}
 		}
 		ioutil.WriteFile(paths[0], append([]byte{0xEE}, datas[0]...), 0644)
-	case "unrepairable":
+	case "unrepairable", "recreated-unrepairable":
 		for _, p := range paths {
 			os.Remove(p)
 		}
@@ -218,12 +241,14 @@ func c20Run(ci interface{}, r *core.Rec) {
 			}
 		}
 		k := scan.Scan(set.AllSlices(), 4, surv).CountMissing()
-		nblocks := 0
+		blocks := map[uint32]bool{} // distinct intact recovery blocks
 		for _, p := range recFiles() {
 			b, _ := ioutil.ReadFile(p)
-			nblocks += len(scen.IntactExponents(b, set.SetID, 4))
+			for _, e := range scen.IntactExponents(b, set.SetID, 4) {
+				blocks[e] = true
+			}
 		}
-		possible = k <= nblocks
+		possible = k <= len(blocks)
 	} else {
 		un := 0
 		for i, p := range paths {
